@@ -82,6 +82,10 @@ impl SnmpPriv for Aes128Key {
         data: &'b [u8],
         usm: &'b UsmParameters<'b>,
     ) -> SnmpResult<ScopedPdu<'c>> {
+        // Salt must be exactly 8 octets
+        if usm.privacy_params.len() != KEY_LENGTH - 8 {
+            return Err(SnmpError::InvalidData);
+        }
         // Get IV
         let mut iv = [0u8; 16];
         iv[..4].clone_from_slice(&(usm.engine_boots as u32).to_be_bytes());
